@@ -13,15 +13,42 @@ LEVEL = "proof"
 HASHSEEDS = {"quick": [0, 1], "thorough": [0, 1, 2, 3]}
 BUDGET_S = {"quick": 120, "thorough": 1200}
 EXHAUSTIVE = {"quick": False, "thorough": False}
-RULE = ("random CPDs with 0..4 parents, cardinalities 1..4 drawn so that parent cardinalities are mostly pairwise "
-        "different (a transposition is invisible on square shapes), dyadic values with zeros / all-zero columns, "
-        "state names default/int-permuted/str/mixed; per CPD: constructor, get_values, every parent permutation "
-        "for reorder_parents (inplace True and False), marginalize and reduce on every subset of parents (by state "
-        "name), normalize, copy (+mutation of the copy), to_factor, is_valid_cpd; column sums at 1 +- (0.01+1e-5) "
-        "+- margin; malformed calls (bad new_order, child in arguments, duplicates, unknown state names, bad shapes); "
-        "Bayesian networks that are correct or wrong in exactly one respect (missing CPD, wrong parent set, wrong "
-        "cardinality, mismatched / partial state names, column sum off by more / less than the tolerance) with "
-        "get_state_probability queries and the brute-force joint total; CPDs with 8..10 parents (more than 8 axes: small-int set iteration order is no longer sorted) reduced/marginalized over subsets that fix most low-index parents; an aliasing stream: CPDs/factors constructed from C-contiguous float64 ndarrays (also other.get_values(), other.values, one re-filled buffer), then the caller's array or the object is mutated and the other re-checked.  A CPD case is non-trivial when it has >=2 "
+RULE = ("streams (all in both tiers): 'cpd' random CPDs with 0..4 parents, cardinalities 1..4 drawn so that parent "
+        "cardinalities are mostly pairwise different (a transposition is invisible on square shapes); tables: dyadic with "
+        "zeros / all-zero columns (0/0), normalised, 'mag' (one power-of-two scale per column from denormals 2^-1070 to "
+        "2^990, no zeros), 'near' (columns differing by 2^-30..2^-40), 'skew' (p = 2^-18..2^-45 against 1-p); state names "
+        "default / permuted and 1-based ints / str / mixed incl. 0 and '' / booleans / the same names shared by several "
+        "variables; variable names str / int / tuple / mixed / 'tricky' (x1,x10,x,G,G2, format keywords, '', 0 vs '0'); per "
+        "CPD: constructor, get_values, to_csv (labels and cells), get_evidence, get_random (layout, determinism, "
+        "cardinality=None, missing cardinality), every parent permutation for reorder_parents (inplace True and False), "
+        "marginalize and reduce on every subset of parents (by state name, in place and out of place), normalize, copy, "
+        "to_factor, is_valid_cpd, and the independence of every derived object under every in-place operation in both "
+        "directions; 'valid' column sums at 1 +- (0.01+1e-5) +- margin; 'malformed' rejected calls (bad new_order, child in "
+        "arguments, duplicates, unknown state names falling back to numbers, bad shapes); 'session' 6 in-place operations "
+        "(reorder/marginalize/reduce/normalize/copy and calls rejected because a LATER argument is invalid) on ONE CPD object "
+        "with read-only calls in between, the object compared with the model after every step; 'bn' networks correct or "
+        "wrong in exactly one respect (missing CPD, wrong parent set, wrong cardinality, mismatched / partial state names, "
+        "column sum off by more / less than the tolerance), incl. families with 8..9 parents, with get_state_probability "
+        "queries and the brute-force joint total; 'bnsession' 5 edits on ONE network (add_cpds replacing a CPD, remove_cpds "
+        "by object and by name + re-add, add_edge, remove_edge / remove_edges_from, add_node, remove_node / "
+        "remove_nodes_from, add_cpds(good, invalid), reorder_parents of a CPD inside the model) with check_model, get_cpds, "
+        "get_cardinality() / (node), get_state_probability compared after every edit with the model built afresh from the "
+        "current state; 'wide' CPDs with 8..10 parents (9..11 axes: the iteration order of a set of small ints is sorted "
+        "only below 8) reduced / marginalized over subsets that keep high-index axes, reordered, copied, normalised; 'alias' "
+        "CPDs/factors constructed from C-contiguous float64 ndarrays or (torch) tensors of the configured dtype, from "
+        "other.get_values(), other.values, one re-filled buffer, then the caller's container or the object is mutated and the "
+        "other re-checked, plus argument purity of every list / dict / nested list / ndarray handed to the constructor, "
+        "reorder_parents, marginalize, reduce, get_random, get_state_probability (deep snapshot, then the containers are "
+        "edited and reused).  Every 4th case of every stream runs under the torch backend: torch.Tensor(list) goes through "
+        "float32, so torch cases round every input to float32 first (the model gets that exact value; 'mag' tables are "
+        "numpy-only; torch reports kernel errors as RuntimeError/TypeError where numpy raises ValueError/IndexError - "
+        "treated as the same rejection).  Comparisons are RELATIVE (1e-9) to the model's exact value; an exact zero must be "
+        "exact.  Checklist classes that cannot apply: pandas frames (no DataFrame enters or leaves the anchored API); "
+        "in-place edits of an INNER state-name list (copy(), to_factor() and the constructor copy the state_names dict "
+        "shallowly on the unchanged tree, and get_values()/the array returned by reorder_parents is a view of cpd.values: "
+        "these are reported observations, the streams edit top-level entries and returned arrays only through the API); "
+        "float/bool state names equal to ints (True == 1) are never mixed with ints in one variable; overflowing sums "
+        "(> 1e308) are not generated because float overflow is not modelled.  A CPD case is non-trivial when it has >=2 "
         "parents with different cardinalities or non-default state names; a network case when it has >=1 edge; "
         "distinct = distinct canonical input")
 TRUSTED_BASE = ["numpy reshape/transpose/einsum/basic slicing/allclose kernels (modelled by their documented meaning)",
@@ -30,7 +57,7 @@ TRUSTED_BASE = ["numpy reshape/transpose/einsum/basic slicing/allclose kernels (
                 "(its literal form is property C04's subject)"]
 ASSUMPTIONS = ["variables and state names are interned by the harness (ints k>=0 as k, other hashables as ids >= 2^20)",
                "state-name lists have the declared cardinality (pgmpy does not validate this) except in the "
-               "malformed stream, state names are lists (not tuples), no bool/float state names"]
+               "malformed stream, state names are lists (not tuples); no float state names; booleans only in all-bool lists"]
 
 BIG = 1 << 20
 ERR = {"ValueError": 1, "KeyError": 2, "IndexError": 3, "TypeError": 4}
@@ -1647,8 +1674,8 @@ def run_alias(case, drv):
     calls = []
     if k >= 1:
         no = list(reversed(ev_py))
-        xs = [ev_py[0]]
-        vl = [(ev_py[-1], esn[ev[-1]][0])]
+        xs = [ev_py[0]] if k == 1 else [ev_py[1], ev_py[0]]
+        vl = [(ev_py[-1], esn[ev[-1]][0])] if k == 1 else [(ev_py[-1], esn[ev[-1]][0]), (ev_py[0], esn[ev[0]][-1])]
         calls = [("reorder_parents", lambda c: c.reorder_parents(no, inplace=True), no, list(no)),
                  ("marginalize", lambda c: c.marginalize(xs, inplace=True), xs, list(xs)),
                  ("reduce", lambda c: c.reduce(vl, inplace=True, show_warnings=False), vl, list(vl)),
